@@ -218,6 +218,10 @@ def long_list_marking(g, cid, o, rng):
     return x
 
 
+def t_required(c, name):
+    return any(s["name"] == name and s["required"] for s in c["slots"])
+
+
 def dict_and_socket_candidates(g, rng):
     """Every dictionary-kind property of every class with a key exactly on the length bounds of ITS specification
     version (2.0: 3 and 256; 2.1: 1 and 250), and socket-ext `options` with every legal key shape (family prefix followed
@@ -228,8 +232,12 @@ def dict_and_socket_candidates(g, rng):
             k = s["kind"]
             if k["k"] != "dict":
                 continue
+            refslots = {t["name"] for t in c["slots"] if t["kind"]["k"] == "objref" or
+                        (t["kind"]["k"] == "list" and t["kind"]["of"]["k"] == "objref") or t["name"] == "extensions"}
             for n in ((3, 256, 255) if k["ver"] == "2.0" else (1, 250, 249)):
-                x = dict(g.obj(cid, 0, {"safe": True}, optional_p=0.3))
+                # (no object references / extensions: the candidate must stay valid inside any container)
+                x = {kk: v for kk, v in g.obj(cid, 0, {"safe": True}, optional_p=0.3).items()
+                     if kk not in refslots or t_required(c, kk)}
                 val = 1 if (c["name"] == "SocketExt" and s["name"] == "options") else "v"
                 key = ("SO_" + "k" * (n - 3)) if (c["name"] == "SocketExt" and s["name"] == "options" and n >= 3) else "k" * n
                 if c["name"] == "SocketExt" and s["name"] == "options" and n < 3:
